@@ -1519,14 +1519,16 @@ theorem expandOKInh_of_expand_inh (idx : Nat) (g : T × ABG × List Blk) (tr : T
 
 /-! ### the items of the helper trait are the declarations of the first block's items -/
 
-/-- trait item `tit` declares the item `it` without a value: same name, same type / signature / generics, no default -/
+/-- trait item `tit` declares the item `it` without a value: same attributes (copied since /repo 2b7edb4), same name,
+    same type / signature / generics, no default -/
 def declares_inh (it tit : T) : Bool :=
-  if kind it == "ImplItem::Const" then
+  kid tit 0 == kid it 0 &&
+  (if kind it == "ImplItem::Const" then
     kind tit == "TraitItem::Const" && kid tit 1 == kid it 3 && kid tit 3 == kid it 5 && kid tit 4 == tNone
   else if kind it == "ImplItem::Type" then
     kind tit == "TraitItem::Type" && kid tit 1 == kid it 3 && kid tit 2 == itemGenerics (kid it 4) && kid tit 5 == tNone
   else
-    kind tit == "TraitItem::Fn" && kid tit 1 == kid it 3 && kid tit 2 == tNone
+    kind tit == "TraitItem::Fn" && kid tit 1 == kid it 3 && kid tit 2 == tNone)
 
 theorem traitItemOfImplItem_spec_inh {it tit : T} (h : traitItemOfImplItem it = .ok tit) (hs : itemShaped_inh it = true) :
     declares_inh it tit = true := by
